@@ -2,24 +2,41 @@
 from vcheck import eval_runner, parse_runner, ana_runner
 
 PROPS = {
-    'C20': dict(level='proof', theorems=['Mp.ni_path_full'], runner=ana_runner),
-    'C10': dict(level='proof', theorems=[], runner=eval_runner),
-    'C11': dict(level='proof', theorems=[], runner=eval_runner),
+    'C20': dict(level='proof', theorems=['Mp.ni_path_full'], runner=ana_runner, design='§6/C20',
+                text='Lean theorem ni_path_full: for every elaborated query whose `$` paths begin with a key, two root documents that answer alike on the listed root keys give equal results (mutual structural induction over the evaluator model, any query size); the model of both analyses and of the evaluator is tied to /repo by a correspondence run on generated queries, and the relational oracles (interference under single-field perturbations, cover/exactness/no-dup/independence of AddressedPaths) are evaluated on the real functions.',
+                note='theorem is about the Lean evaluator model and the rfPath read-set function; the link from the Go AST walk to rfPath is by correspondence (model of GetRootFieldsAccessed/AddressedPaths diffed with the real ones), not by proof; slice independence is observed, the model has value semantics.'),
+    'C10': dict(level='proof', theorems=['Mp.sim_normalize', 'Mp.func_carrier_independent', 'Mp.L2.path_carrier_independent'], runner=eval_runner, design='§6/C10',
+                text='Lean theorems: carriers that differ in integer kind/width, named types, one pointer, typed vs untyped slice, array vs slice normalise to the same value (sim_normalize) so every modelled function returns the same outcome on them (func_carrier_independent); a key-only path of any length gives the same logical answer on maps and on structs (path_carrier_independent). Partial: the lift to whole queries and to decoders is covered by the relational oracle only (one document in 13 carriers + JSON/YAML/TOML text, results compared by logical content) and by model/implementation correspondence on every rendering.',
+                note='PARTIAL proof: fragment theorems + correspondence; decoders (encoding/json, yaml.v2, go-toml) are opaque; reflect semantics as modelled by GoVal/RV.'),
+    'C11': dict(level='proof', theorems=['PermP.findKey_perm', 'Mp.findMapKey_order_independent'], runner=eval_runner, design='§6/C11',
+                text='Lean theorems: the key lookup returns the same entry for every permutation of a map\'s entries (findKey_perm over any strict total order; findMapKey_order_independent for the concrete model lookup with bytewise order and EqualFold), so map iteration order cannot influence a result; the model evaluator is a pure function (no state, no writes). Immutability of the operation and of caller data on the real code is checked by the history oracle: each operation evaluated repeatedly, interleaved, on deep copies, with deep snapshots of data and of Sprint/JSON of the operation before and after.',
+                note='purity of the Go code itself (no heap model) rests on the snapshots and on model/implementation correspondence; documents include case-colliding sibling keys.'),
     'C08': dict(
         level='proof',
-        theorems=['Mp.scan_progress', 'Mp.parse_fuel_sufficient'],
-        runner=parse_runner,
+        theorems=['Mp.scan_progress', 'Mp.parse_fuel_sufficient', 'Pool.history_independent'],
+        runner=parse_runner, design='§6/C08',
+        text='Lean theorems over the lexer+parser model: every token other than EOF consumes input (scan_progress) and the recursive-descent parser never runs out of its linear fuel on any byte string with any Unicode tables (parse_fuel_sufficient) - termination for all inputs; after any history of parses on a pooled scanner the next parse starts from the canonical configuration (history_independent). The model returns the Go pair, so exactly-one-of(op, err) is checked on it and on the code for every generated input; std-stream silence, chunking patterns, read faults at every offset and parse histories are run on the real parser.',
+        note='chunk independence of text/scanner buffering is validated at run time, not proved (PARTIAL); the Unicode tables are the driver\'s stand-in tables, theorems quantify over all tables.',
         assumptions=['text/scanner buffering is not modelled: the model reads the concatenated bytes; chunk independence is checked at run time only'],
     ),
     'C09': dict(
         level='proof',
-        theorems=[],
-        runner=parse_runner,
+        theorems=['Esc.literal_roundtrip', 'Esc.unescape_order_independent', 'Esc.seq_eq_sim'],
+        runner=parse_runner, design='§6/C09',
+        text='Lean theorems about string literals: unescape(escape(unescape b)) = unescape b for every byte string, and the eight map-ordered Replace passes compute one simultaneous pass whatever the order (so Go map iteration cannot matter). The structural round trip parse(Sprint(op)) = op, Sprint fixed point, UserString = query text and equal evaluation before/after are checked by the relational oracle on the real parser/printer over the exhaustive small grammar, random large queries and every accepted string of the C08 exploration, and the Lean parser/printer model is diffed on the same inputs.',
+        note='PARTIAL: the full print/parse inverse is not a theorem (token-boundary lemmas outstanding); literal and order-independence parts are proved; numbers rely on F64 parse/shortest model diffed with Go.',
     ),
     'C07': dict(
         level='proof',
         theorems=['Mp.eval_never_panics', 'Mp.pureFunc_np'],
-        runner=eval_runner,
+        runner=eval_runner, design='§6/C07',
+        text='Lean theorem eval_never_panics: no elaborated query panics on any Go value (mutual structural induction over the nine evaluator functions; pureFunc_np: none of the modelled functions panics on any receiver and argument list; every Go panic site is a `panic` outcome of the model, so this is a theorem and not a construction). The evaluator is structural recursion on the elaborated query, hence total. Tied to /repo by the exhaustive function x receiver-kind x argument-tuple product run under recover with a watchdog and diffed with the model.',
+        note='termination holds for queries whose Select argument is a literal (known finding 21 otherwise); functions that call external engines are run but not modelled.',
         assumptions=['external engines (regexp, encoding/json, yaml, toml, xml2json, fmt.Sprintf) are outside the model: calls that reach them are run on the implementation (no panic, no hang) but not compared with the model'],
     ),
 }
+
+# properties deliberately not claimed (reason shown in MANIFEST.not_applicable); empty = default text
+NOT_APPLICABLE = {}
+# commits in /repo that add verif-tagged hooks (none: everything is observed through the public API)
+HOOK_COMMITS = []
